@@ -82,8 +82,10 @@ class World:
     self.sampler_seed = int(rng.randint(0, 2**31 - 1))
     if kind == 'hash':
 
+      # The state mixes leaf kinds on purpose: uint8 array, Python int, Python float and a reduced-precision array
+      # whose update depends on NumPy's promotion rules (a Python float is weakly typed, a 0-d float64 array is not).
       def init():
-        return {'h': np.zeros(32, np.uint8), 'round': 0}
+        return {'h': np.zeros(32, np.uint8), 'round': 0, 'lr': 0.5, 'p16': np.linspace(-1, 1, 4).astype(np.float16)}
 
       def apply(state, clients):
         m = hashlib.sha256()
@@ -93,7 +95,11 @@ class World:
           m.update(cid)
           m.update(np.asarray(key).tobytes())
           m.update(np.ascontiguousarray(ds.raw_examples['x']).tobytes())
-        return {'h': np.frombuffer(m.digest(), np.uint8).copy(), 'round': state['round'] + 1}, {}
+        p16 = state['p16'] * state['lr'] + np.float16(m.digest()[0] / 256.0)
+        m.update(np.asarray(p16).tobytes())
+        m.update(str(np.asarray(p16).dtype).encode())
+        return {'h': np.frombuffer(m.digest(), np.uint8).copy(), 'round': state['round'] + 1, 'lr': state['lr'],
+                'p16': p16}, {}
 
       self.algo = fedjax.FederatedAlgorithm(init, apply)
       self.init_state = init
@@ -125,17 +131,31 @@ class World:
 
   def digest(self, state):
     if self.kind == 'hash':
-      return state['h'].tobytes().hex()[:16] + f":{state['round']}"
+      return state['h'].tobytes().hex()[:16] + f":{state['round']}:{np.asarray(state['p16']).dtype}"
     import jax
     leaves = jax.tree_util.tree_leaves(state)
     return hashlib.sha256(b''.join(np.asarray(l).tobytes() for l in leaves)).hexdigest()[:16]
 
   def same_state(self, a, b):
-    if self.kind == 'hash':
-      return a['round'] == b['round'] and np.array_equal(a['h'], b['h'])
+    """Same pytree structure, same leaf kinds (Python scalar / NumPy / JAX array), same dtypes, same values."""
     import jax
-    la, lb = jax.tree_util.tree_leaves(a), jax.tree_util.tree_leaves(b)
-    return len(la) == len(lb) and all(core.close(x, y, rtol=1e-6, atol=1e-7) for x, y in zip(la, lb))
+    la, ta = jax.tree_util.tree_flatten(a)
+    lb, tb = jax.tree_util.tree_flatten(b)
+    if ta != tb:
+      return False
+    for x, y in zip(la, lb):
+      kx = 'jax' if isinstance(x, jax.Array) else ('np' if isinstance(x, (np.ndarray, np.generic)) else type(x).__name__)
+      ky = 'jax' if isinstance(y, jax.Array) else ('np' if isinstance(y, (np.ndarray, np.generic)) else type(y).__name__)
+      if kx != ky:
+        return False
+      if kx in ('jax', 'np') and (np.asarray(x).dtype != np.asarray(y).dtype or np.shape(x) != np.shape(y)):
+        return False
+      if self.kind == 'hash':
+        if not core.bit_equal(np.asarray(x), np.asarray(y)):
+          return False
+      elif not core.close(x, y, rtol=1e-6, atol=1e-7):
+        return False
+    return True
 
   def run(self, root, cfg, record_states=None):
     fe, fedjax = self.fe, self.fedjax
